@@ -18,8 +18,13 @@ What is translated, all of it read from the working tree of $VERIF_REPO with `as
   * `Constant.__init__`: the whole decision, with the value the constant stores as the result.
 
 Not translated, on purpose (listed in the header of each generated definition): `Attribute.__init__` (the name rules are C05's, the
-serializability check concerns service types), the attribute `_standard_bit_length` (float arithmetic; nothing in this group reads it),
-the texts of the exception messages.
+serializability check concerns service types), the attribute `_standard_bit_length` (nothing in this group reads it) together with the
+locals of a constructor that feed nothing else (slice by data flow, `outside_slice_locals`), the texts of the exception messages.
+
+Supported expressions: int / bool literals, names, + - * // % ** << >> & | ^ ~ on ints (exact `Int` semantics, see lean/PyConst.lean),
++ - * ** on Fractions, comparison chains, and / or / not and `a if c else b` (operations of a conditionally evaluated operand stay in
+its branch), isinstance, len, ord, int, Fraction(...), ValueRange(...), dict display subscripts, attribute / property / method access
+resolved through the method resolution order.
 
 Anything outside the supported fragment makes the definition concerned an always-failing stub and is reported as a problem
 (`py2lean: [Gen.Constant] ...`): never guess.
@@ -242,6 +247,7 @@ class FnTr:
         self.declared: typing.Set[str] = set()
         self.notes: typing.List[str] = []
         self.payload_type: typing.Optional[str] = None  # val-method: type of self._value
+        self.outside: typing.Dict[str, ast.stmt] = {}  # prim-init: locals outside the slice (see outside_slice_locals)
 
     # --- helpers
     def bind(self, m: str) -> str:
@@ -290,6 +296,8 @@ class FnTr:
             if isinstance(n.op, ast.Not):
                 return "bool", "(!%s)" % self.truth(n.operand)
             t, v = self.e(n.operand)
+            if isinstance(n.op, ast.Invert) and t == "int":
+                return t, "(Py.intInvert %s)" % v
             if t not in ("int", "frac"):
                 raise Untranslatable("unary %s of a %s" % (type(n.op).__name__, t))
             if isinstance(n.op, ast.USub):
@@ -301,6 +309,8 @@ class FnTr:
             return self.binop(n)
         if isinstance(n, ast.BoolOp):
             return "bool", self.boolop(n)
+        if isinstance(n, ast.IfExp):
+            return self.ifexp(n)
         if isinstance(n, ast.Compare):
             return "bool", self.compare(n)
         if isinstance(n, ast.Call):
@@ -330,6 +340,13 @@ class FnTr:
             return "int", self.bind("Py.intFloordiv %s %s" % (lv, rv))
         if isinstance(n.op, ast.LShift) and both_int:
             return "int", self.bind("Py.intShl %s %s" % (lv, rv))
+        if isinstance(n.op, ast.RShift) and both_int:
+            return "int", self.bind("Py.intShr %s %s" % (lv, rv))
+        if isinstance(n.op, ast.Mod) and both_int:
+            return "int", self.bind("Py.intMod %s %s" % (lv, rv))
+        if isinstance(n.op, (ast.BitAnd, ast.BitOr, ast.BitXor)) and both_int:
+            fn = {ast.BitAnd: "intAnd", ast.BitOr: "intOr", ast.BitXor: "intXor"}[type(n.op)]
+            return "int", "(Py.%s %s %s)" % (fn, lv, rv)
         if isinstance(n.op, ast.Pow):
             if both_int:
                 return "int", self.bind("Py.intPow %s %s" % (lv, rv))
@@ -363,6 +380,26 @@ class FnTr:
                 val_r = t
         self.pre.extend(pre_r)
         return val_r
+
+    def ifexp(self, n: ast.IfExp) -> typing.Tuple[str, str]:
+        """`a if c else b`: only the selected operand is evaluated, so the operations an operand hoists stay in its branch."""
+        c = self.truth(n.test)  # the condition is always evaluated: its operations are hoisted in front
+        saved, self.pre = self.pre, []
+        at, av = self.e(n.body)
+        pre_a, self.pre = self.pre, []
+        bt, bv = self.e(n.orelse)
+        pre_b, self.pre = self.pre, saved
+        if at != bt:
+            if {at, bt} == {"int", "frac"}:
+                av, bv, at = self.as_frac(at, av), self.as_frac(bt, bv), "frac"
+            else:
+                raise Untranslatable("conditional expression between %s and %s" % (at, bt))
+        if not pre_a and not pre_b:
+            return at, "(if %s then %s else %s)" % (c, av, bv)
+
+        def block(pre: typing.List[str], v: str) -> str:
+            return "do" + "".join("\n    %s" % p.replace("\n", "\n    ") for p in pre) + "\n    pure %s" % v
+        return at, self.bind("(if %s then %s else %s)" % (c, block(pre_a, av), block(pre_b, bv)))
 
     def compare(self, n: ast.Compare) -> str:
         parts = []
@@ -708,6 +745,9 @@ class FnTr:
             if len(targets) != 1 or s.value is None:
                 raise Untranslatable("assignment form")
             tg = targets[0]
+            if isinstance(tg, ast.Name) and self.outside.get(tg.id) is s:
+                self.notes.append("the local %s feeds only attributes that are not part of the slice" % tg.id)
+                return
             if isinstance(tg, ast.Name):
                 # an alias of the Fraction constructor
                 if isinstance(s.value, ast.Attribute) and isinstance(s.value.value, ast.Name) and s.value.value.id == "fractions" \
@@ -808,6 +848,62 @@ class FnTr:
         out[-1] = out[-1] + ")"
 
     ret = "unit"
+
+
+def outside_slice_locals(fn: ast.FunctionDef) -> typing.Dict[str, ast.stmt]:
+    """Slice of a constructor by data flow: a local that is bound exactly once, by a plain top-level assignment, and whose every read
+    lies inside a statement that is itself outside the slice (the assignment of an attribute of IGNORED_ATTRS, or the assignment of
+    another such local) has no influence on the tracked attributes, the guards or the exceptions the slice translates.  It has the
+    status of the ignored attribute it feeds and is listed in the header of the generated definition."""
+    params = {a.arg for a in fn.args.args + fn.args.kwonlyargs + fn.args.posonlyargs}
+    if fn.args.vararg:
+        params.add(fn.args.vararg.arg)
+    if fn.args.kwarg:
+        params.add(fn.args.kwarg.arg)
+    bindings: typing.Dict[str, int] = {}
+    for n in ast.walk(fn):
+        if isinstance(n, ast.Name) and isinstance(n.ctx, (ast.Store, ast.Del)):
+            bindings[n.id] = bindings.get(n.id, 0) + 1
+        elif isinstance(n, (ast.Global, ast.Nonlocal)):
+            for x in n.names:
+                bindings[x] = bindings.get(x, 0) + 2
+        elif isinstance(n, ast.ExceptHandler) and n.name:
+            bindings[n.name] = bindings.get(n.name, 0) + 2
+        elif isinstance(n, (ast.FunctionDef, ast.ClassDef, ast.Lambda)) and n is not fn:
+            for x in ast.walk(n):  # nested scopes: do not reason about them
+                if isinstance(x, ast.Name):
+                    bindings[x.id] = bindings.get(x.id, 0) + 2
+    candidates: typing.Dict[str, ast.stmt] = {}
+    for st in fn.body:
+        tg = None
+        if isinstance(st, ast.Assign) and len(st.targets) == 1:
+            tg = st.targets[0]
+        elif isinstance(st, ast.AnnAssign) and st.value is not None:
+            tg = st.target
+        if isinstance(tg, ast.Name) and tg.id not in params and bindings.get(tg.id) == 1:
+            candidates[tg.id] = st
+    outside: typing.List[ast.stmt] = []
+    for n in ast.walk(fn):
+        if isinstance(n, (ast.Assign, ast.AnnAssign)):
+            tgs = n.targets if isinstance(n, ast.Assign) else [n.target]
+            if len(tgs) == 1 and isinstance(tgs[0], ast.Attribute) and isinstance(tgs[0].value, ast.Name) and tgs[0].value.id == "self" \
+                    and tgs[0].attr in IGNORED_ATTRS:
+                outside.append(n)
+    loads: typing.Dict[str, typing.List[ast.Name]] = {}
+    for n in ast.walk(fn):
+        if isinstance(n, ast.Name) and isinstance(n.ctx, ast.Load):
+            loads.setdefault(n.id, []).append(n)
+    dropped: typing.Dict[str, ast.stmt] = {}
+    changed = True
+    while changed:
+        changed = False
+        covered = {id(x) for st in outside + list(dropped.values()) for x in ast.walk(st)}
+        for name, st in candidates.items():
+            if name not in dropped and all(id(l) in covered for l in loads.get(name, [])):
+                dropped[name] = st
+                changed = True
+    # a local that nothing reads at all is kept in the slice (its right-hand side is translated, or refused)
+    return {k: v for k, v in dropped.items() if loads.get(k)}
 
 
 def assigned_keys(s: ast.stmt) -> typing.Set[str]:
@@ -957,6 +1053,7 @@ def prim_init(w: World, cls: str) -> typing.Tuple[str, typing.List[typing.Tuple[
 
     def build():
         tr = FnTr(w, "prim-init", owner, src)
+        tr.outside = outside_slice_locals(fn)
         for p, t in params:
             tr.types[p] = t
         body: typing.List[str] = []
